@@ -31,7 +31,7 @@ RULE = ("all shapes up to N nodes (quick 4, thorough 5) x start nodes x query ba
 
 
 # attribute values: JSON scalars and (unhashable) lists, compared by value
-VALUES = [0, 1, 2, None, "s", [1, 2], [], "<NAN>"]      # "<NAN>": the one float('nan') object (equal to nothing, itself included)
+VALUES = [0, 1, 2, None, "s", [1, 2], [], "<NAN>", "<VER>"]      # "<NAN>": the one float('nan') object (equal to nothing, itself included)
 
 
 NAMES = ["x", "y", "label", "zz", "depth", "height", "kind"]     # stored, missing, computed (properties), class-level
